@@ -47,8 +47,8 @@ def warm():
 
 def sizes(tier):
     if tier == "thorough":
-        return {"runs": 80000, "block": 100, "det": 64, "det_fresh": 8, "timeout": 3300}
-    return {"runs": 2400, "block": 25, "det": 24, "det_fresh": 6, "timeout": 900}
+        return {"runs": 80000, "block": 100, "det": 64, "det_fresh": 8, "timeout": 3300, "order": 4000}
+    return {"runs": 2400, "block": 25, "det": 24, "det_fresh": 6, "timeout": 900, "order": 200}
 
 
 # ----------------------------------------------------------------------------------------------
@@ -58,7 +58,9 @@ def _seed_key(s):
 
 def gen_noise(rng, n_actors):
     k = rng.weighted([("np_seed", 4), ("np_draw", 3), ("np_set_state", 1), ("py_seed", 1), ("py_draw", 1), ("clock", 3),
-                      ("lib", 3), ("spawn", 2), ("gc", 0.5), ("printopts", 0.5), ("np_default_rng", 1)])
+                      ("lib", 3), ("spawn", 2), ("gc", 0.5), ("printopts", 0.5), ("np_default_rng", 1), ("numba_threads", 1.5)])
+    if k == "numba_threads":
+        return {"k": k, "v": rng.randint(1, 4)}
     if k in ("np_seed", "py_seed", "np_set_state", "np_default_rng"):
         return {"k": k, "v": rng.choice([0, 1, 42, 12345, rng.randrange(2 ** 32)]), "n": rng.randint(1, 8)}
     if k == "np_draw":
@@ -82,12 +84,28 @@ def gen_plan(rng, tier, index=0):
         r = rng.sub("group", g)
         kind = r.weighted([("FT", 2), ("FTSH", 2), ("VK", 3), ("KOL", 2)])
         params = screens.gen_params(r, kind, small=True, big=(tier == "thorough" and r.chance(0.1)))
+        if g > 0 and r.chance(0.35):
+            # a variant of the previous group: same kind, same seeds, parameters equal except one (instances and calls
+            # must not share anything that depends on it)
+            prev = [a for a in actors if a["group"] == g - 1][0]
+            kind = prev["kind"]
+            params = dict(prev["params"])
+            key = r.choice([k for k in ("r0", "L0", "l0", "delta") if k in params])
+            params[key] = round(params[key] * r.choice([0.5, 2.0, 1.5]), 6)
+            variant_seed = prev["seed"]
+        else:
+            variant_seed = None
+        if kind in ("FT", "FTSH") and g == 0 and rng.chance(0.012 if tier != "thorough" else 0.03):
+            params = dict(params, N=1024)            # a big screen: code paths that only large arrays take
         rows = 0 if kind in ("FT", "FTSH") else (r.randint(20, 60 if tier != "thorough" else 300) if long_run and g == 0 else r.randint(0, 6))
-        s1 = r.choice(SEED_POOL)
+        s1 = variant_seed if variant_seed is not None else r.choice(SEED_POOL)
         a = len(actors)
         scrib = r.chance(0.5)
-        actors.append({"kind": kind, "params": params, "seed": s1, "rows": rows, "twin_of": None, "group": g, "scribble": scrib})
-        actors.append({"kind": kind, "params": params, "seed": s1, "rows": rows, "twin_of": a, "group": g, "scribble": scrib})
+        # some infinite-screen actors restart their screen through the public make_initial_screen() after `restart` rows:
+        # with the same seed the screen and every later row must replay
+        restart = r.randint(0, max(0, rows - 1)) if (kind in ("VK", "KOL") and rows >= 1 and r.chance(0.3)) else None
+        actors.append({"kind": kind, "params": params, "seed": s1, "rows": rows, "twin_of": None, "group": g, "scribble": scrib, "restart": restart})
+        actors.append({"kind": kind, "params": params, "seed": s1, "rows": rows, "twin_of": a, "group": g, "scribble": scrib, "restart": restart})
         if kind in ("FT", "FTSH") and r.chance(0.3):
             # a third call with the same seed, later still
             actors.append({"kind": kind, "params": params, "seed": s1, "rows": rows, "twin_of": a, "group": g, "scribble": scrib})
@@ -105,7 +123,7 @@ def gen_plan(rng, tier, index=0):
     r = rng.sub("sched")
     bag = []
     for i, a in enumerate(actors):
-        bag.extend([i] * (a["rows"] + 1))
+        bag.extend([i] * (a["rows"] + 1 + (1 if a.get("restart") is not None else 0)))
     r.shuffle(bag)
     p_noise = r.choice([0.0, 0.15, 0.3, 0.6])
     steps = []
@@ -113,7 +131,7 @@ def gen_plan(rng, tier, index=0):
         while r.chance(p_noise):
             steps.append({"noise": gen_noise(r, len(actors))})
         steps.append({"a": i})
-    return {"ambient": rng.randrange(2 ** 31), "entropy": rng.randrange(2 ** 62), "actors": actors, "steps": steps}
+    return {"ambient": rng.randrange(2 ** 31), "entropy": rng.randrange(2 ** 62), "numba_threads": rng.randint(1, 4), "actors": actors, "steps": steps}
 
 
 # ----------------------------------------------------------------------------------------------
@@ -126,7 +144,7 @@ class _Actor(object):
         self.dead = False
 
     def n_ops(self):
-        return self.spec["rows"] + 1
+        return self.spec["rows"] + 1 + (1 if self.spec.get("restart") is not None else 0)
 
     def done(self):
         return self.pc >= self.n_ops()
@@ -149,7 +167,12 @@ class _Actor(object):
                     self.pc += 1
                     self.trace.append(("skipped",))
                     return self.trace[-1]
-                out = self.obj.add_row()
+                if sp.get("restart") is not None and self.pc == sp["restart"] + 1:
+                    self.obj.make_initial_screen()
+                    out = self.obj.scrn
+                    self.restarted_at = self.pc
+                else:
+                    out = self.obj.add_row()
             e = ("ok", core.hbytes(repr(screens.abytes(out)[:2]).encode() + screens.abytes(out)[2]))
             if sp.get("scribble") and kind in ("FT", "FTSH"):
                 # the returned screen belongs to the caller, who converts it in place (radians -> nanometres, as the
@@ -201,7 +224,7 @@ def execute(plan, keep_log=False):
     res = core.Result()
     log = core.EventLog(keep_log)
     screens.warm()
-    seams.reset_ambient(plan["ambient"])
+    seams.reset_ambient(plan["ambient"], plan.get("numba_threads", 1))
     specs = plan["actors"]
     actors = [_Actor(s) for s in specs]
     n = len(actors)
@@ -228,6 +251,8 @@ def execute(plan, keep_log=False):
             if getattr(a, "scribbled", False) and a.pc == 1:
                 res.count("fault.caller_modified_returned_screen_in_place")
             log.add(si, "op", i, a.pc - 1, e)
+            if specs[i]["seed"] != "none":
+                res.step_results["a%d.%d" % (specs[i].get("k", i), a.pc - 1)] = list(e)
             if before != after:
                 res.violate("ambient", "C06:screen-op-changed-global-rng:%s" % specs[i]["kind"],
                             "actor %d (%s, seed %r) op %d changed numpy's or python's global random state"
@@ -294,6 +319,17 @@ def execute(plan, keep_log=False):
         return (s["kind"], repr(sorted(s["params"].items())))
 
     for i, s in enumerate(specs):
+        ra = getattr(actors[i], "restarted_at", None)
+        if ra is not None and s["seed"] != "none":
+            tr = actors[i].trace
+            res.count("oracle.restarts_compared")
+            for j in range(len(tr) - ra):
+                if j < ra and tr[ra + j] != tr[j]:
+                    res.violate("restart", "C06:restart-with-same-seed-does-not-replay:%s" % s["kind"],
+                                "actor %d (%s, seed %r): after make_initial_screen() at op %d the %s differs from what the same seed "
+                                "gave after construction (%s vs %s)" % (i, s["kind"], s["seed"], ra, "initial screen" if j == 0 else "row %d" % j, tr[ra + j], tr[j]), -1)
+                    break
+    for i, s in enumerate(specs):
         t = s["twin_of"]
         if t is None:
             continue
@@ -344,9 +380,25 @@ def execute(plan, keep_log=False):
     if nontrivial:
         res.sig("sched", tuple(canon))
     res.digest = log.digest()
+    res.sched_digest = log.full_digest()
     if keep_log:
         res.events = log.events
     return res
+
+
+def order_variants(plan):
+    """the same actors, (A) in the plan's interleaving with its noise steps, (B) one after the other in reverse order
+    without any noise: what a seeded actor returns must be the same"""
+    import copy
+    a = copy.deepcopy(plan)
+    for i, sp in enumerate(a["actors"]):
+        sp["k"] = i
+    b = copy.deepcopy(a)
+    steps = []
+    for i in reversed(range(len(b["actors"]))):
+        steps.extend([{"a": i}] * (b["actors"][i]["rows"] + 1 + (1 if b["actors"][i].get("restart") is not None else 0)))
+    b["steps"] = steps
+    return [a, b]
 
 
 def simplify(plan):
